@@ -583,8 +583,7 @@ def toyEnv : Env :=
                 fields := [⟨"X", 1⟩] },
               { kind := .named, str := "p.R", name := "R", pkgPath := some "p", isStruct := true,
                 fields := [⟨"In", 3⟩, ⟨"N", 1⟩] } ],
-    assignable := fun a b => a == b, convertible := fun a b => a == b, lookup := fun _ _ => .none,
-    scopeHas := fun _ => true, pkgPath := "p", imports := [], stringTy := 1 }
+    assignable := fun a b => a == b, convertible := fun a b => a == b, lookup := fun _ _ => .none, pkgPath := "p", imports := [], stringTy := 1 }
 
 def toyCtx : BCtx :=
   { env := toyEnv, eng := { compiles := fun _ => true, search := fun _ _ => false }, methodPos := "f.go:1:1", opts := {} }
